@@ -81,6 +81,8 @@ func refTotal(a, b ref.Val) int {
 	}
 }
 
+var c15Count int64
+
 func c15Cmp(a, b Operand) string {
 	want := ref.Cmp(a.V, b.V)
 	got, pan := safeCmp(func() int { return a.D.Cmp(b.D) })
@@ -103,6 +105,20 @@ func c15Cmp(a, b Operand) string {
 	wv := ref.Val{Coef: big.NewInt(int64(abs(want))), Neg: want < 0}
 	if gv.Form != ref.Finite || gv.Exp != 0 || gv.Coef.Cmp(wv.Coef) != 0 || (want != 0 && gv.Neg != wv.Neg) {
 		return fmt.Sprintf("Context.Cmp = %s, want %d", gv, want)
+	}
+	// the result of Context.Cmp is -1, 0 or 1 with exponent 0 and no condition whatever the context's exponent
+	// range (a range that does not contain exponent 0 must not clamp, overflow or underflow it); every 8th pair
+	c15Count++
+	if c15Count%8 == 0 {
+		for _, cr := range []apd.Context{{Precision: 5, MinExponent: 1000, MaxExponent: 1002}, {Precision: 3, MinExponent: -9, MaxExponent: -3}} {
+			var dd apd.Decimal
+			cr := cr
+			res, err, pan := callOp("Cmp", &cr, &dd, a.D, b.D, 0)
+			gv := ToVal(&dd)
+			if pan != "" || err != nil || res != 0 || gv.Form != ref.Finite || gv.Exp != 0 || gv.Coef.Cmp(wv.Coef) != 0 || (want != 0 && gv.Neg != wv.Neg) {
+				return fmt.Sprintf("Context.Cmp under the range [%d,%d] = %s [%s] err %v panic %q, want %d with no condition", cr.MinExponent, cr.MaxExponent, gv, ref.FlagNames(int(res)), err, pan, want)
+			}
+		}
 	}
 	// where the coefficients have to be aligned (equal digit-count + exponent sums, different exponents) the
 	// destination is also made one of the operands: the aligned copy must not be built in the operand itself
